@@ -297,6 +297,13 @@ func c01Scenario(t *testing.T, o *vOut, seed int64, maxN, scIdx int) {
 	// issuances that outlast the staleness threshold of the file lock (the holder's heartbeat
 	// must keep its lock file fresh)
 	longIssue := useFiles && rng.Intn(2) == 0
+	// the storage self-test (checkStorage) switched on: every request first writes, reads back
+	// and deletes a test value of its own — concurrent requests must not disturb each other's
+	// self-test (its operations are not part of the transcribed history; the outcome is). Drawn
+	// from a generator of its own so that the scenarios of a seed stay what they were.
+	rngSC := rand.New(rand.NewSource(seed*31 + 5))
+	storageCheck := rngSC.Intn(3) == 0
+	together := storageCheck && rngSC.Intn(2) == 0 // all requests arrive at the same instant
 	var dir string
 	if useFiles {
 		dir = t.TempDir()
@@ -369,7 +376,7 @@ func c01Scenario(t *testing.T, o *vOut, seed int64, maxN, scIdx int) {
 			if !sameSpelling {
 				r.spelling = fam[rng.Intn(len(fam))]
 			}
-			r.cache, r.cfg = vNewCfg(st, issuers)
+			r.cache, r.cfg = vNewCfg(st, issuers, func(c *Config, _ *CacheOptions) { c.DisableStorageCheck = !storageCheck })
 			// an on-demand handshake: loads from storage, obtains (with retries, inside the lock) when
 			// nothing is there — the same load / pre-check / lock / re-check / issue / save as a manage
 			// request. (A due certificate would be renewed in the background after the handshake has
@@ -383,6 +390,7 @@ func c01Scenario(t *testing.T, o *vOut, seed int64, maxN, scIdx int) {
 				r.cache.Stop()
 				r.cache, r.cfg = vNewCfg(st, issuers, func(c *Config, _ *CacheOptions) {
 					c.OnDemand = &OnDemandConfig{DecisionFunc: func(context.Context, string) error { return nil }}
+					c.DisableStorageCheck = !storageCheck
 				})
 			}
 			reqs[i] = r
@@ -443,7 +451,7 @@ func c01Scenario(t *testing.T, o *vOut, seed int64, maxN, scIdx int) {
 		if storeFaultAt > 0 {
 			var stores int
 			fault = func(n int, kind, key string) error {
-				if kind != "Store" {
+				if kind != "Store" || strings.HasPrefix(key, "rw_test") {
 					return nil
 				}
 				dmu.Lock()
@@ -463,7 +471,9 @@ func c01Scenario(t *testing.T, o *vOut, seed int64, maxN, scIdx int) {
 			wg.Add(1)
 			go func() {
 				defer wg.Done()
-				time.Sleep(time.Duration(delays[r.id].Intn(3000)) * time.Millisecond) // arrival
+				if arrival := time.Duration(delays[r.id].Intn(3000)) * time.Millisecond; !together {
+					time.Sleep(arrival)
+				}
 				// (the deadline only turns a hang into an error that can be reported)
 				ctx, cancel := context.WithTimeout(vWithReq(context.Background(), r.id), 12*time.Hour)
 				defer cancel()
@@ -506,6 +516,9 @@ func c01Scenario(t *testing.T, o *vOut, seed int64, maxN, scIdx int) {
 			var rops []vOp
 			for _, op := range ops {
 				if op.Req == r.id {
+					if strings.HasPrefix(op.Key, "rw_test") {
+						continue // the storage self-test
+					}
 					// (a handshake that finds nothing under the name also looks for a stored wildcard
 					// certificate covering it: another subject's bundle, not part of this history)
 					if r.od && strings.Contains(op.Key, "/wildcard_") {
@@ -531,7 +544,7 @@ func c01Scenario(t *testing.T, o *vOut, seed int64, maxN, scIdx int) {
 				}
 			}
 			for _, op := range ops {
-				if op.Req == r.id {
+				if op.Req == r.id || strings.HasPrefix(op.Key, "rw_test") {
 					continue
 				}
 				if op.Kind == "Store" || op.Kind == "Delete" {
